@@ -51,6 +51,9 @@ def mismatch(world, what, detail):
     """outcome class of a mutation differs from what the model demands"""
     if world.focus == 'C01':
         raise Violation('C01.outcome', what, detail)
+    if world.focus == 'C03':
+        world.diverged = True              # C03 keeps judging its model-free clauses (see engine)
+        return
     raise Precondition('C01.outcome %s %r' % (what, detail))
 
 
@@ -81,6 +84,8 @@ def do_add(world, rep, op):
         mismatch(world, 'add', {'op': op, 'expected': exp, 'got': out, 'msg': str(r) if st != 'ok' else None})
     if out == 'ok':
         if m.frozen:
+            if 'D23' not in world.open_guards and world.focus == 'C19':
+                raise Violation('C19.frozen', 'add_interaction-did-not-raise', {'op': op})
             world.guard_hits['D23'] += 1
         if m.removal:
             cls = span_class(m, u, v, t, e)
